@@ -66,6 +66,10 @@ pub struct InnerScript {
     /// (svc, req id) whose inner future is *busy*: it uses up tokio's cooperative budget at
     /// every poll until its latency is over (a hot receive loop), instead of sleeping
     pub busy: std::collections::HashSet<(u8, u32)>,
+    /// (svc, req id) -> request that the inner service, while handling that request, sends back
+    /// through the whole stack (a handler that calls the client it sits behind) and awaits
+    /// inside its own future before it goes on
+    pub nested: HashMap<(u8, u32), crate::inner::Req>,
     /// simulated tasks keep tokio's cooperative budget (a fresh one per poll, like a spawned
     /// task) instead of running unconstrained
     pub constrained_tasks: bool,
@@ -171,6 +175,7 @@ pub fn with<R>(f: impl FnOnce(&mut World) -> R) -> R {
 
 /// Reset the world for a new run.
 pub fn reset() {
+    crate::inner::NESTED.with(|n| *n.borrow_mut() = None);
     with(|w| *w = World::new());
     with(|w| w.active = true);
 }
